@@ -30,15 +30,29 @@ def family_mp(M, P):
 
 
 def gen_stats_case(rng, M, P, N, scalar="f64", weights=None, noise=0.05, quant=None, probs=None, ctor="new", faults=None,
-                   builder_made=False, patience=None):
+                   builder_made=False, patience=None, cfg=None, qbits=10):
     basis, (lo, hi) = family_mp(M, P)
-    truth = distinct_params(rng, P, lo, hi, sep=0.35)
+    # well separated parameters keep the normal matrix H^T H reasonably conditioned (otherwise most cases are skipped)
+    truth = []
+    if P <= M:
+        r = rng.uniform(0.2, 0.4)
+        for _ in range(P):
+            truth.append(round(r * 16) / 16)
+            r *= rng.uniform(2.5, 4.0)
+    else:
+        two = P - M
+        for _ in range(two):
+            truth += [round(rng.uniform(0.2, 0.6) * 16) / 16, round(rng.uniform(1.0, 3.0) * 16) / 16]
+        r = rng.uniform(0.8, 1.2)
+        while len(truth) < P:
+            truth.append(round(r * 16) / 16)
+            r *= rng.uniform(2.5, 4.0)
     x = [0.25 * (i + 1) for i in range(N)]
     start = [round_to(t * (1 + rng.uniform(-0.03, 0.03)), scalar) for t in truth]
     spec = model_spec(x, basis, P, start, scalar=scalar, quant=quant, builder_made=builder_made)
     c = {"scalar": scalar, "ctor": ctor, "model": spec, "faults": faults, "build": [["obs", N, [[]]]], "ops": [],
          "meta": {"family": "mp%d%d" % (M, P), "N": N, "M": M, "P": P, "S": 1, "weights": weights or "none", "range": [lo, hi]}}
-    synth_observations(rng, c, truth, noise=noise)
+    synth_observations(rng, c, truth, noise=noise, qbits=qbits)
     if weights and weights != "none":
         w = [1.0] * N if weights == "unit" else [dyadic(rng, 0.5, 3, 2) for _ in range(N)]
         if weights == "zeros":
@@ -50,7 +64,9 @@ def gen_stats_case(rng, M, P, N, scalar="f64", weights=None, noise=0.05, quant=N
         c["build"].append(["weights", [hx(v, scalar) for v in w]])
         if rng.random() < 0.5:
             c["build"].reverse()
-    cfg = {} if patience is None else {"patience": patience}
+    cfg = dict(cfg or {})
+    if patience is not None:
+        cfg["patience"] = patience
     probs = probs if probs is not None else [0.5, 0.683, 0.9]
     c["ops"] = [["observe"], ["fit_stats", cfg, [hx(p, scalar) for p in probs]], ["observe"], ["tables"]]
     c["meta"]["cfg"] = cfg
